@@ -1,6 +1,7 @@
 (* Hand-pinned unit table of the exported configuration (what C16 states): every numeric field of the configuration a
    setup is converted to is the setup's physical value, in the unit the field's name carries, rounded to 4 decimals
-   (f64::round: ties away from zero) -- except the idler waist position, which the code exports unrounded.
+   (f64::round: ties away from zero).  The idler waist position is the one field the code has exported UNROUNDED; whether it
+   is rounded is the parameter [rz] (instantiated with the flag the generator reads off the source).
    Over the reals; the generated conversion (Gen/ConfigConv.v, from src/spdc/config/*.rs) is proved equal to this. *)
 From Coq Require Import Reals String List.
 From SpdVerif Require Import Base.Rx Base.NumOps Spec.ConfigSpec Model.ConfigTypes.
@@ -29,7 +30,7 @@ Definition apod_spec (a : apod R) : apod_cfg R :=
   | AHamming x => ACHamming x | AWelch x => ACWelch x | AInterpolate l => ACInterpolate l
   end.
 
-Definition as_config_spec (U : units R) (s : spdc R) : spdc_cfg R :=
+Definition as_config_spec (rz : bool) (U : units R) (s : spdc R) : spdc_cfg R :=
   {| c_crystal :=
        {| cc_kind := cs_kind (s_crystal s); cc_pm := cs_pm (s_crystal s);
           cc_phi_deg := round4 (cs_phi (s_crystal s) / deg);
@@ -44,7 +45,7 @@ Definition as_config_spec (U : units R) (s : spdc R) : spdc_cfg R :=
           pc_power_mw := round4 (s_power s / u_milliw U);
           pc_threshold := Some (s_threshold s) |};
      c_signal := beam_spec (s_signal s) (round4 (s_zs s / micro));
-     c_idler := Param (beam_spec (s_idler s) (s_zi s / micro));               (* explicit; waist position NOT rounded *)
+     c_idler := Param (beam_spec (s_idler s) (if rz then round4 (s_zi s / micro) else s_zi s / micro));   (* explicit *)
      c_pp := match s_pp s with
              | PolOff => PCOff
              | PolOn period _ a => PCConfig (Param (round4 (period / micro))) (apod_spec a)   (* magnitude; sign dropped *)
